@@ -10,7 +10,10 @@ assert conf.get('confirmed'), 'not confirmed: %s' % conf
 os.makedirs(dst, exist_ok=True)
 shutil.copy(src + '/patch.diff', dst)
 for f in glob.glob(src + '/demo*'):
-    shutil.copy(f, dst)
+    if os.path.isdir(f):
+        shutil.copytree(f, dst + '/' + os.path.basename(f), dirs_exist_ok=True)
+    else:
+        shutil.copy(f, dst)
 meta = json.load(open(src + '/meta.json'))
 meta.update({
     'breaks_property': sid,
